@@ -130,6 +130,9 @@ func lruProperty(regimes []string) func(t *rapid.T) {
 		if capEff <= 0 {
 			t.Fatalf("Capacity() = %d for requested %d: no positive default in force", capEff, capIn)
 		}
+		if capIn <= 0 && capEff != 100 {
+			t.Fatalf("Capacity() = %d for requested %d: non-positive capacities are replaced by the documented default of 100", capEff, capIn)
+		}
 		if capIn > 0 && capEff != capIn {
 			t.Fatalf("Capacity() = %d, requested %d", capEff, capIn)
 		}
